@@ -41,7 +41,8 @@ hashset = st.lists(st.sampled_from(HASHSETS), min_size=1, max_size=3,
 def layout(draw, spec, sub_manifests=True, duplicates=True, ignores=True,
            dist=True, timestamp=True, lies=False, second_manifest=True,
            compressed=True, hashsets=None, conflicts=True,
-           sub_prob=(1, 3), second_prob=(1, 5), under_ignore=True):
+           sub_prob=(1, 3), second_prob=(1, 5), under_ignore=True,
+           dup_manifest_entries=False, odd_spellings=False):
     """Returns a symbolic layout:
     {'manifests': [{'p','fmt','dir','parent','entries','mpos','mhash'}],
      'tags': [...]}   manifests[0] is the top-level one."""
@@ -97,6 +98,24 @@ def layout(draw, spec, sub_manifests=True, duplicates=True, ignores=True,
                 if fmt:
                     tags.append('compressed')
     mpaths = {m['p'] for m in manifests}
+    if dup_manifest_entries and duplicates:
+        # a sub-Manifest referenced a second time from further up its chain,
+        # with another hash set; sometimes that second reference lies
+        for ci, m in enumerate(manifests):
+            if m['parent'] is None or draw(st.integers(0, 4)) != 0:
+                continue
+            chain = []
+            j = m['parent']
+            while j is not None:
+                chain.append(j)
+                j = manifests[j]['parent']
+            m['extra_ref'] = {
+                'holder': draw(st.sampled_from(chain)),
+                'hash': draw(hs),
+                'lie': lies and draw(st.integers(0, 2)) == 0}
+            tags.append('dup-manifest-entry')
+            if m['extra_ref']['lie']:
+                tags.append('dup-manifest-entry-lie')
 
     # IGNORE entries
     ignored = []
@@ -163,6 +182,10 @@ def layout(draw, spec, sub_manifests=True, duplicates=True, ignores=True,
         hset = draw(hs)
         e = {'tag': tag, 'path': p, 'size': len(v[1]),
              'ck': R.digests(v[1], hset)}
+        if odd_spellings and tag != 'AUX' and draw(st.integers(0, 7)) == 0:
+            # the same file, spelled the long way round
+            e['spell'] = draw(st.sampled_from(['./', '/./', '//']))
+            tags.append('odd-spelling')
         manifests[mi]['entries'].append(e)
         file_entries.append((mi, e))
         if duplicates and draw(st.integers(0, 5)) == 0:
@@ -255,6 +278,13 @@ def to_entry(e, mdir):
     p = rel(e['path'], mdir)
     if tag == 'IGNORE':
         return R.Entry('IGNORE', path=p)
+    sp = e.get('spell')
+    if sp == './':
+        p = './' + p
+    elif sp and '/' in p:
+        p = p.replace('/', sp, 1)
+    elif sp:
+        p = './' + p
     return R.Entry(tag, path=p, size=e['size'], checksums=e['ck'])
 
 
@@ -281,6 +311,16 @@ def render(lay, order_seed=None):
             entries.append(R.Entry(
                 'MANIFEST', path=rel(cm['p'], m['dir']), size=len(data),
                 checksums=R.digests(data, cm['mhash'])))
+        for c, cm in enumerate(manifests):
+            x = cm.get('extra_ref')
+            if x and x['holder'] == i and c in rendered:
+                ck = R.digests(rendered[c], x['hash'])
+                if x['lie']:
+                    k0 = sorted(ck)[0]
+                    ck[k0] = flip(ck[k0])
+                entries.append(R.Entry(
+                    'MANIFEST', path=rel(cm['p'], m['dir']),
+                    size=len(rendered[c]), checksums=ck))
         if order_seed is not None:
             import hashlib
             entries.sort(key=lambda en: hashlib.sha1(
